@@ -46,6 +46,7 @@ type Profile struct {
 	BigTotals      bool
 	OnCompleteFill int
 	LateAdd        bool
+	LateSuccW      int // weight of the macro "successors created for a bar that has already finished" (0-3 frames after it finished, 1-2 successors)
 	Epilogues      []string
 	BuiltinPct     int  // percent of bars that also carry 1-2 of the library's own decorators
 	DisabledPct    int  // percent of decorators switched off through decor.OnCondition(d, false)
@@ -604,6 +605,23 @@ func genSteps(t *rapid.T, prof *Profile, sc *engine.Scenario) []engine.Step {
 				gb[i].m.Apply(&st)
 				steps = append(steps, st, engine.Step{Op: "tick"}, engine.Step{Op: "tick"})
 				add()
+				steps = append(steps, engine.Step{Op: "tick"})
+			}})
+		}
+		if prof.LateSuccW > 0 && len(term) > 0 && nextAdd < nb && (sc.Cfg.Refresh == "manual" || sc.Cfg.Refresh == "autoinj") {
+			cs = append(cs, choice{prof.LateSuccW, func() {
+				// bars queued after a bar that has finished: before its hand-over frame,
+				// right at it, or after it has left (they then come in at once)
+				pred := rapid.SampledFrom(term).Draw(t, "latepred")
+				for k := rapid.IntRange(0, 3).Draw(t, "lateticks"); k > 0; k-- {
+					steps = append(steps, engine.Step{Op: "tick"})
+				}
+				for n := rapid.IntRange(1, 2).Draw(t, "latesuccs"); n > 0 && nextAdd < nb; n-- {
+					if !(openFinding("C17-late-successor") || openFinding("C17-second-successor-overwrites")) {
+						sc.Bars[nextAdd].QueueAfter = pred
+					}
+					add()
+				}
 				steps = append(steps, engine.Step{Op: "tick"})
 			}})
 		}
